@@ -18,6 +18,7 @@ func rulesC01(c *Ctx) {
 		"R1.2 the key is the named key: a wire-derived key never passes a narrowing integer conversion unless schema validation of the same entry or an explicit range test precedes it",
 		"R1.3 failures leave no trace: no AddXXX/DeleteXXX returns 'not done' after its install/remove step ran (unless that step itself failed), and returns 'done' only after it ran; a DELETE of a missing key is a success and removes exactly the table/key of its own kind",
 		"R1.4 the RIB verdicts are translated to FAILED / RIB_PROGRAMMED(+FIB_PROGRAMMED) one to one (shared with C06 R6.2)",
+		"R1.6 an operation that is never answered leaves no trace: once doModify has failed the RPC it applies no further operation of the request (shared with C09 R9.9)",
 		"R1.5 a held operation is later installed with its own network instance and payload (retry walk, shared with C02 R2.4)")
 	c.NotDec = append(c.NotDec, "ygot's merge/validate semantics", "the order of effects across operations and interleaved flushes", "the fold over concrete histories")
 	ribFamily(c, famSel{mergeTotal: true, noTrace: true, delIdem: true, keyAgree: true})
@@ -26,6 +27,7 @@ func rulesC01(c *Ctx) {
 	ruleExplicitReplace(c)
 	ruleRetryAfterInstall(c)
 	ruleOpResultID(c)
+	ruleFatalEndsSession(c)
 }
 
 // R1.2
